@@ -246,56 +246,62 @@ theorem converge_partial_first_fragment_restarts (C : Crypto) (L : Loc) (e : Ep)
   have h0 : clearPostHvr e = e := by simp [clearPostHvr, hp]
   have h1 : resetFrag e.ctx m = { e.ctx with incomplete := [], incompleteSeq := m.msgSeq } := by simp [resetFrag, hoff]
   simp only [h0, h1]
-  rw [if_pos (by omega), if_neg (by simp [hoff])]
-  simp only [appendFrag, List.nil_append]
-  simp [hfrag]
+  rw [if_pos (by omega)]
+  by_cases hb : m.body = []
+  · simp [fragUseful, hoff, hb]
+  · have : 0 < m.body.length := List.length_pos_iff.mpr hb
+    simp [fragUseful, appendFrag, hoff, this, hfrag]
 
-/-- converge_partial (4b): two fragments delivered in order reassemble to the whole message: the
-handler runs on `a ++ b` with the transcript entry of the unfragmented message. -/
-theorem converge_partial_fragments_reassemble (C : Crypto) (L : Loc) (e : Ep) (typ msgSeq : Nat) (a b : Bytes)
-    (ha : a ≠ []) (hb : b ≠ []) (hp : e.ctx.postHvr = false) (hseq : e.ctx.recvSeq < 65535) :
-    let m1 : HsMsg := ⟨typ, a.length + b.length, msgSeq, 0, a⟩
-    let m2 : HsMsg := ⟨typ, a.length + b.length, msgSeq, a.length, b⟩
+/-- converge_partial (4b): two fragments delivered in order reassemble to the whole message, also when
+their ranges **overlap** (`[0, |a|+|b|)` then `[|a|, |a|+|b|+|c|)`; `b = []` is the exact-boundary case):
+the handler runs on `a ++ b ++ c` with the transcript entry of the unfragmented message.  (RFC 6347 §4.2.3
+lets a sender or a re-fragmenting path choose overlapping ranges; before `fix: accept overlapping
+handshake fragments` the second fragment was ignored for ever.) -/
+theorem converge_partial_fragments_reassemble (C : Crypto) (L : Loc) (e : Ep) (typ msgSeq : Nat) (a b c : Bytes)
+    (ha : a ≠ []) (hc : c ≠ []) (hp : e.ctx.postHvr = false) (hseq : e.ctx.recvSeq < 65535) :
+    let total := a.length + b.length + c.length
+    let m1 : HsMsg := ⟨typ, total, msgSeq, 0, a ++ b⟩
+    let m2 : HsMsg := ⟨typ, total, msgSeq, a.length, b ++ c⟩
     let e1 := (acceptMsg C L e m1).ep
     (acceptMsg C L e m1).out = [] ∧ (acceptMsg C L e m1).err = false ∧
-    e1.ctx.incomplete = a ∧ e1.ctx.recvSeq = e.ctx.recvSeq ∧ e1.ctx.transcript = e.ctx.transcript ∧
+    e1.ctx.incomplete = a ++ b ∧ e1.ctx.recvSeq = e.ctx.recvSeq ∧ e1.ctx.transcript = e.ctx.transcript ∧
     acceptMsg C L e1 m2 =
-      handleMsg C L (withCtx e1 (noteMsg (takeBuffer (appendFrag e1.ctx m2)) typ (rawMsg typ msgSeq (a ++ b)))) typ (a ++ b)
-        (rawMsg typ msgSeq (a ++ b)) := by
+      handleMsg C L (withCtx e1 (noteMsg (takeBuffer (appendFrag e1.ctx m2)) typ (rawMsg typ msgSeq (a ++ b ++ c)))) typ (a ++ b ++ c)
+        (rawMsg typ msgSeq (a ++ b ++ c)) := by
+  intro total m1 m2 e1
   have hla : 0 < a.length := List.length_pos_iff.mpr ha
-  have hlb : 0 < b.length := List.length_pos_iff.mpr hb
-  have h0 : clearPostHvr e = e := by simp [clearPostHvr, hp]
-  have hr : (resetFrag e.ctx ⟨typ, a.length + b.length, msgSeq, 0, a⟩).incomplete = [] := by simp [resetFrag]
-  have hrs : (resetFrag e.ctx ⟨typ, a.length + b.length, msgSeq, 0, a⟩).incompleteSeq = msgSeq := by
-    simp [resetFrag]
-  have step1 : acceptMsg C L e ⟨typ, a.length + b.length, msgSeq, 0, a⟩ =
-      ok (withCtx e (appendFrag (resetFrag e.ctx ⟨typ, a.length + b.length, msgSeq, 0, a⟩) ⟨typ, a.length + b.length, msgSeq, 0, a⟩)) := by
-    unfold acceptMsg
-    simp only [h0]
-    rw [if_pos (by simp; omega), if_neg (by simp [hr])]
-    simp only [appendFrag, hr, List.nil_append]
-    rw [if_pos (by simp; omega)]
-  refine ⟨by rw [step1]; rfl, by rw [step1]; rfl, ?_, ?_, ?_, ?_⟩
-  · rw [step1]; simp [ok, withCtx, appendFrag, hr]
-  · rw [step1]; simp [ok, withCtx, appendFrag, resetFrag]
-  · rw [step1]; simp [ok, withCtx, appendFrag, resetFrag]
-  · rw [step1]
-    simp only [ok]
-    unfold acceptMsg
-    have hp1 : clearPostHvr (withCtx e (appendFrag (resetFrag e.ctx ⟨typ, a.length + b.length, msgSeq, 0, a⟩) ⟨typ, a.length + b.length, msgSeq, 0, a⟩))
-        = withCtx e (appendFrag (resetFrag e.ctx ⟨typ, a.length + b.length, msgSeq, 0, a⟩) ⟨typ, a.length + b.length, msgSeq, 0, a⟩) := by
-      simp [clearPostHvr, withCtx, appendFrag, resetFrag, hp]
-    simp only [hp1]
-    have hres : resetFrag (withCtx e (appendFrag (resetFrag e.ctx ⟨typ, a.length + b.length, msgSeq, 0, a⟩) ⟨typ, a.length + b.length, msgSeq, 0, a⟩)).ctx
-        ⟨typ, a.length + b.length, msgSeq, a.length, b⟩
-        = (withCtx e (appendFrag (resetFrag e.ctx ⟨typ, a.length + b.length, msgSeq, 0, a⟩) ⟨typ, a.length + b.length, msgSeq, 0, a⟩)).ctx := by
-      simp [resetFrag, withCtx, appendFrag]
-    rw [if_pos (by simp; omega)]
-    simp only [hres]
-    rw [if_neg (by simp [withCtx, appendFrag, hr])]
-    rw [if_neg (by simp [withCtx, appendFrag, hr])]
-    rw [if_neg (by simp [withCtx, appendFrag, resetFrag]; omega)]
-    simp [withCtx, appendFrag, hr, rawMsg, encodeHs]
+  have hlc : 0 < c.length := List.length_pos_iff.mpr hc
+  have s1 := converge_partial_first_fragment_restarts C L e m1 (by simp [m1, total]; omega) rfl hp
+  have he1 : e1 = withCtx e { e.ctx with incomplete := a ++ b, incompleteSeq := msgSeq } := by
+    show (acceptMsg C L e m1).ep = _
+    rw [s1]; rfl
+  refine ⟨by rw [s1]; rfl, by rw [s1]; rfl, by rw [he1]; rfl, by rw [he1]; rfl, by rw [he1]; rfl, ?_⟩
+  have hp1 : clearPostHvr e1 = e1 := by rw [he1]; simp [clearPostHvr, withCtx, hp]
+  have hres : resetFrag e1.ctx m2 = e1.ctx := by
+    have h1 : e1.ctx.incompleteSeq = m2.msgSeq := by rw [he1]; rfl
+    have h2 : m2.fragOff ≠ 0 := by show a.length ≠ 0; omega
+    simp [resetFrag, h1, h2]
+  have hinc : e1.ctx.incomplete = a ++ b := by rw [he1]; rfl
+  have hrs : e1.ctx.recvSeq = e.ctx.recvSeq := by rw [he1]; rfl
+  have happ : (appendFrag e1.ctx m2).incomplete = a ++ b ++ c := by
+    simp [appendFrag, hinc, m2]
+  unfold acceptMsg
+  simp only [hp1, hres]
+  rw [if_pos (by simp [m2, total]; omega)]
+  rw [if_neg (by simp [fragUseful, hinc, m2]; omega)]
+  rw [if_neg (by simp [happ, m2, total]; omega)]
+  rw [if_neg (by simp only [appendFrag, hrs]; omega)]
+  simp only [happ]
+  simp [rawMsg, m2, total, encodeHs, List.append_assoc, Nat.add_assoc]
+
+/-- … and a fragment that would leave a gap after the buffer, or lies wholly inside it, changes nothing
+but the reset rule (so a retransmission can still complete the message). -/
+theorem converge_partial_useless_fragment_ignored (C : Crypto) (L : Loc) (e : Ep) (m : HsMsg)
+    (hfrag : m.totalLen ≠ m.body.length)
+    (hu : fragUseful (resetFrag (clearPostHvr e).ctx m) m = false) :
+    acceptMsg C L e m = ok (withCtx (clearPostHvr e) (resetFrag (clearPostHvr e).ctx m)) := by
+  unfold acceptMsg
+  simp [hfrag, hu]
 
 /-! ### liveness and agreement in the closed system, for every fault schedule
 
